@@ -3,6 +3,10 @@
 import json
 TX_NOTE = "Trusted: SimNet (stream-level model of one QUIC connection, semantics in DESIGN.md 2.4) instead of quic-go; the app shell around the engines is a stub (sender closes with code 0 on return, receiver exits without closing); the go/ast yield generator; testing/synctest; one fake clock for both nodes."
 checks = {
+ "C15": dict(level="exploration", design="3/C15",
+   text="A healthy small transfer is recorded in the simulator; its transcript is mutated (truncation, boundary values in length/count/index fields, wrong magic, unknown or swapped record types, duplicated/dropped/inserted ranges, absurd manifest/bitmap/chunk-size/frame lengths) and replayed by a scripted peer against the real receiver or the real sender with seeded segmentation and schedules; the script ends its input (FIN on every stream, optionally closing the connection). Oracle: no panic, no death of the process (each worker runs under a 3 GiB address-space limit; a fatal out-of-memory is attributed to the run in progress), the target returns within 15 simulated minutes of the end of input, Go TotalAlloc growth <= 64 x bytes received + 48 MiB, and a receiver that reports success after data-stream-only mutations holds the identical tree.",
+   note="Mutation is plain seeded mutation of a recorded transcript; the simulator contributes end-of-input semantics, segmentation, the fake clock for hang detection and crash attribution. SimNet instead of quic-go. One genuine defect is listed as known finding (chunk buffers sized by the peer-announced chunk size).",
+   technique="deterministic simulation with a scripted byzantine peer replaying mutated recordings; process-crash attribution via per-run breadcrumbs"),
  "C07": dict(level="exploration", design="3/C07",
    text="The real RecvManifestMultiStream runs against a scripted hostile sender over the simulated network: framing is well-formed, but manifest.root, directory and file rel_path, item id or FileBegin.rel_path carry escape patterns (parent references, absolute paths into the sandbox, smuggled separators, NUL, backslashes, the metadata directory), in both root-dir modes, resume on and off, under seeded segmentation and schedules. The output directory sits in a per-run sandbox with decoys; oracle: the snapshot of everything outside the output directory is unchanged and no logged creating/writing/renaming/removing operation of the receiver resolves outside it.",
    note="Hostile strings are a fixed pool (ordinary seeded generation); the simulator contributes the peer, the sandbox accounting through the file-system interposition layer and the schedule. SimNet instead of quic-go; Unix path semantics only.",
